@@ -182,11 +182,12 @@ Theorem supply_frame :
 Proof. exact supply_frame_lemma. Qed.
 Print Assumptions supply_frame.
 
-(** over any history: a denom that is neither the creation-fee denom nor the LPT denom of a pool
-    registered at the end has the supply it started with *)
+(** over any history (parameter changes included): a denom that is never the creation-fee denom
+    ([all_states]: at no state the history passes through) and not the LPT denom of a pool registered
+    at the end has the supply it started with *)
 Theorem history_supply_frame :
   forall (ms : list msg) (s : state) (d : Z),
-    d <> p_cdenom (par s) ->
+    all_states (fun s' => d <> p_cdenom (par s')) s ms ->
     (forall cp n, In (cp, n) (pools (run s ms)) -> d <> lpt n) ->
     supply (run s ms) d = supply s d.
 Proof. exact history_supply_frame_lemma. Qed.
@@ -222,8 +223,11 @@ Print Assumptions failed_msg_changes_nothing.
     [c02_step] (Check.v) is the decidable predicate the check evaluates on the IMPLEMENTATION's
     observed worlds: it recomputes sold / bought / deposited / withdrawn / minted / tax from the
     observed ledger and demands the full balance sheet, bounds, deadline, supply frame and
-    registry.  On the model's own worlds it answers 0, for messages signed by users (not a pool
-    escrow address, not a module account) and a creation fee not denominated in an LPT denom. *)
+    registry, and that the parameters change exactly when the authority sends a valid
+    MsgUpdateParams.  On the model's own worlds it answers 0, for messages signed by users or the
+    authority (not a pool escrow address, not the coinswap / fee-collector module account) and a
+    creation fee not denominated in an LPT denom.  The swap clause is skipped only when the recipient
+    is the escrow address of a pool the order itself trades on. *)
 Theorem check_predicate_holds_on_model_step :
   forall (s : state) (m : msg) (s' : state) (r : list Z) (o : obs),
     Inv s -> signer_ok m -> p_cdenom (par s) <= 1000 ->
@@ -243,7 +247,7 @@ Print Assumptions check_predicate_holds_on_failed_step.
     (the model never fails with code 0): every step of every history answers (0, 0) *)
 Theorem model_history_passes_both_predicates :
   forall (ms : list msg) (s : state),
-    Inv s -> Forall signer_ok ms -> p_cdenom (par s) <= 1000 ->
+    Inv s -> Forall msg_ok ms -> p_cdenom (par s) <= 1000 ->
     Forall (fun c => c = (0, 0)) (prop_codes s ms).
 Proof. exact model_history_passes. Qed.
 Print Assumptions model_history_passes_both_predicates.
@@ -256,6 +260,7 @@ Definition ex2_s0 : state :=
           [(0, 100005000); (1, 200000000); (2, 100000000)] [] 1 1000 ex2_par.
 Definition ex2_setup : list msg := [MAdd 0 1 1000000 1000000 1 2000; MAdd 0 2 1000000 1000000 1 2000].
 Definition ex2_sell : msg := MSwap false 1 3 1 1000 2 992 2000.
+Definition ex2_params : msg := MUpdateParams acct_gov (mkParams 10000000000000000 0 500000000000000000 std 7).
 
 Example c02_nonvacuous :
   codes_of ex2_s0 (ex2_setup ++ [ex2_sell]) = [0; 0; 0]
@@ -277,14 +282,29 @@ Proof. vm_compute. repeat split; reflexivity. Qed.
 (** the hypotheses of the history theorem hold of that history, and the predicates indeed
     evaluate to (0, 0) at each of its steps (computed, as the check computes them) *)
 Example c02_history_hypotheses :
-  Inv ex2_s0 /\ Forall signer_ok (ex2_setup ++ [ex2_sell]) /\ p_cdenom (par ex2_s0) <= 1000
-  /\ prop_codes ex2_s0 (ex2_setup ++ [ex2_sell]) = [(0, 0); (0, 0); (0, 0)].
+  Inv ex2_s0 /\ Forall msg_ok (ex2_setup ++ [ex2_params; ex2_sell]) /\ p_cdenom (par ex2_s0) <= 1000
+  /\ prop_codes ex2_s0 (ex2_setup ++ [ex2_params; ex2_sell]) = [(0, 0); (0, 0); (0, 0); (0, 0)].
 Proof.
   split; [apply Inv_genesis; [reflexivity|unfold P18; simpl; lia|unfold P18; simpl; lia]|].
-  split; [repeat constructor; unfold acct_feecol, acct_module; lia|].
+  split.
+  { repeat (apply Forall_cons;
+            [unfold msg_ok, signer_ok, is_pool_acct, acct_feecol, acct_module, acct_gov, std; simpl;
+             repeat split; try reflexivity; try lia; try discriminate|]).
+    apply Forall_nil. }
   split; [simpl; unfold std; lia|].
   vm_compute. reflexivity.
 Qed.
+
+(** a parameter change: refused for a stranger and for a fee out of range, accepted from the authority;
+    no coin moves *)
+Example c02_update_params :
+  let s := run ex2_s0 ex2_setup in
+  code_of s (MUpdateParams 1 (mkParams 1 0 1 std 1)) = 1
+  /\ code_of s (MUpdateParams acct_gov (mkParams P18 0 1 std 1)) = 1
+  /\ code_of s ex2_params = 0
+  /\ led (step s ex2_params) = led s /\ sup (step s ex2_params) = sup s
+  /\ p_fee (par (step s ex2_params)) = 10000000000000000.
+Proof. vm_compute. repeat split; reflexivity. Qed.
 
 (** the hypotheses of [history_balance_sheet] on that history: users 0, 1, 3, the fee collector and
     the three pool addresses up to the final sequence *)
